@@ -4,7 +4,7 @@
 
   `preProcessIds allowLong inp` is the identifier handling of `pre_process_sequences` (duplicate
   pass, `fix_record_name_id` per record, final "record has no name" check) on the list of
-  `(id, name)` pairs of the input records, for the code repaired by fixes/D14* and fixes/D15*.
+  `(id, name, accession annotation)` triples of the input records (repairs D14, D15 included).
   Every statement is for all input lists (any length, any characters, duplicates, ids equal to
   another record's rewritten form, …) and both settings of `allow_long_headers`; none has a
   side condition.  The illegal-character sets are the regenerated tables `ASV.Generated.Ids`.
@@ -15,12 +15,12 @@ namespace ASV.C16
 open ASV ASV.Ids ASV.Generated.Ids
 
 /-- all records have pairwise distinct identifiers afterwards -/
-theorem ids_distinct (allowLong : Bool) (inp : List (Str × Str)) (recs : List Rec)
+theorem ids_distinct (allowLong : Bool) (inp : List (Str × Str × Option Str)) (recs : List Rec)
     (h : preProcessIds allowLong inp = .ok recs) : (recs.map (·.id)).Nodup :=
   (preProcessIds_post h).distinct
 
 /-- neither id nor name contains a character unusable in file names / GenBank headers -/
-theorem ids_clean (allowLong : Bool) (inp : List (Str × Str)) (recs : List Rec)
+theorem ids_clean (allowLong : Bool) (inp : List (Str × Str × Option Str)) (recs : List Rec)
     (h : preProcessIds allowLong inp = .ok recs) :
     ∀ r ∈ recs, ∀ bad ∈ illegalRecordChars, bad ∉ r.id ∧ bad ∉ r.name :=
   fun r hr bad hb =>
@@ -28,37 +28,37 @@ theorem ids_clean (allowLong : Bool) (inp : List (Str × Str)) (recs : List Rec)
      fun hm => ((preProcessIds_post h).each r hr).2.1 bad hm hb⟩
 
 /-- at most 16 characters unless long headers were allowed -/
-theorem ids_short (inp : List (Str × Str)) (recs : List Rec)
+theorem ids_short (inp : List (Str × Str × Option Str)) (recs : List Rec)
     (h : preProcessIds false inp = .ok recs) : ∀ r ∈ recs, r.id.length ≤ 16 ∧ r.name.length ≤ 16 :=
   fun r hr => ((preProcessIds_post h).each r hr).2.2.1 rfl
 
 /-- no record is lost or invented, and a record remembers its original identifier exactly when
     its identifier was changed (by the duplicate pass, the shortening or the stripping) -/
-theorem original_remembered (allowLong : Bool) (inp : List (Str × Str)) (recs : List Rec)
+theorem original_remembered (allowLong : Bool) (inp : List (Str × Str × Option Str)) (recs : List Rec)
     (h : preProcessIds allowLong inp = .ok recs) :
     List.Forall₂ (fun p r => r.orig = if r.id = p.1 then none else some p.1) inp recs :=
   (preProcessIds_post h).remembers
 
 /-- accepted inputs have no empty identifier, before or after -/
-theorem ids_nonempty (allowLong : Bool) (inp : List (Str × Str)) (recs : List Rec)
+theorem ids_nonempty (allowLong : Bool) (inp : List (Str × Str × Option Str)) (recs : List Rec)
     (h : preProcessIds allowLong inp = .ok recs) : (∀ p ∈ inp, p.1 ≠ []) ∧ ∀ r ∈ recs, r.id ≠ [] :=
-  ⟨(preProcessIds_post h).inputsNamed, fun r hr => ((preProcessIds_post h).each r hr).2.2.2⟩
+  ⟨(preProcessIds_post h).inputsNamed, fun r hr => ((preProcessIds_post h).each r hr).2.2.2.1⟩
 
 /-- an input is rejected only because no 16-character identifier is left (`RuntimeError` of
     `generate_unique_id`) or because a record has no identifier; the `assert` on the size of the
     id set never fires and the counter loop of `generate_unique_id` always stops -/
-theorem rejected_only_as_documented (allowLong : Bool) (inp : List (Str × Str)) (e : Err)
+theorem rejected_only_as_documented (allowLong : Bool) (inp : List (Str × Str × Option Str)) (e : Err)
     (h : preProcessIds allowLong inp = .error e) : e = .runtime ∨ e = .noName :=
   preProcessIds_err h
 
 /-- with `allow_long_headers` the only rejection left is a record without identifier -/
-theorem allow_long_rejects_only_unnamed (inp : List (Str × Str)) (e : Err)
+theorem allow_long_rejects_only_unnamed (inp : List (Str × Str × Option Str)) (e : Err)
     (h : preProcessIds true inp = .error e) : e = .noName :=
   preProcessIds_err_long h
 
 /-- the executable specification evaluated by the driver on the implementation's output holds of
     the model's output (same definition, `ASV.IdSpec.recordsOk`) -/
-theorem sanitised_meets_spec (allowLong : Bool) (inp : List (Str × Str)) (recs : List Rec)
+theorem sanitised_meets_spec (allowLong : Bool) (inp : List (Str × Str × Option Str)) (recs : List Rec)
     (h : preProcessIds allowLong inp = .ok recs) :
     IdSpec.recordsOk allowLong (inp.map (·.1)) (recs.map toOut) = true :=
   post_recordsOk (preProcessIds_post h)
@@ -75,6 +75,27 @@ theorem unique_id_total (pre : Str) (taken : List Str) (start : Nat) (maxLength 
     (h : generateUniqueId pre taken start maxLength = .error e) : e = .runtime ∧ 0 < maxLength :=
   generateUniqueId_err h
 
+/-- function level, in the terms the driver evaluates on the implementation's result
+    (`IdSpec.uniqueOk`): whenever `generate_unique_id` returns, the RETURNED id is not among the
+    existing ids and is within `max_length` — the bound is on the candidate finally chosen, however
+    many taken candidates (and digit boundaries of the counter) the loop has skipped -/
+theorem unique_id_meets_spec (pre : Str) (taken : List Str) (start : Nat) (maxLength : Int) (n : Str) (k : Nat)
+    (h : generateUniqueId pre taken start maxLength = .ok (n, k)) : IdSpec.uniqueOk taken maxLength n = true :=
+  uniqueOk_of_ok h
+
+/-- one `fix_record_name_id` call with an arbitrary id set, `original_id` and `record_index`
+    meets the executable per-call spec `IdSpec.fixOk` -/
+theorem fix_meets_spec (allowLong : Bool) (taken : List Str) (r r' : Rec) (t' : List Str)
+    (h : fixRecordNameId allowLong taken r = .ok (r', t')) :
+    IdSpec.fixOk allowLong taken r.id r.orig (toOut r') t' = true :=
+  fixOk_of_post (fixRecordNameId_spec h)
+
+/-- the `accession` annotation never exceeds 16 characters afterwards (it is shortened even when
+    long headers are allowed) -/
+theorem accession_short (allowLong : Bool) (inp : List (Str × Str × Option Str)) (recs : List Rec)
+    (h : preProcessIds allowLong inp = .ok recs) : ∀ r ∈ recs, ∀ a, r.acc = some a → a.length ≤ 16 :=
+  fun r hr => ((preProcessIds_post h).each r hr).2.2.2.2
+
 /-- the repaired `_shorten_ids` always fits (D15) and is the old format for numbers of ≤ 5 digits -/
 theorem shortened_fits (recordIndex : Nat) (s : Str) :
     (shortenIds recordIndex s).length ≤ 16 ∧
@@ -83,25 +104,58 @@ theorem shortened_fits (recordIndex : Nat) (s : Str) :
   ⟨shortenIds_length _ _, shortenIds_small _ _⟩
 
 /-- gene identifiers: a successful `add_cds_feature` stores the feature under a name and a
-    location that no earlier CDS of the record has (otherwise the call is rejected and the record
-    is left as it was, by construction of `applyOp`) -/
-theorem add_cds_fresh_or_rejected (s s' : GState) (c : Cds) (chk n : Str) (h : addCds s c chk = .ok (s', n)) :
-    n ∉ s.cdss.map (·.1) ∧ c.loc ∉ s.cdss.map (·.2) ∧ s'.cdss = s.cdss ++ [(n, c.loc)] :=
-  ⟨(addCds_ok h).1, (addCds_ok h).2.1, (addCds_ok h).2.2.1⟩
+    location key (`str(location)`) that no earlier CDS of the record has, and the name is
+    `get_name()` or `get_name()_<crc32 of the location text>` -/
+theorem add_cds_fresh_or_rejected (s s' : GState) (c : Cds) (n : Str) (h : addCds s c = .ok (s', n)) :
+    n ∉ s.cdss.map (·.1) ∧ locChars c.loc ∉ s.cdss.map (fun x => locChars x.2) ∧
+    s'.cdss = s.cdss ++ [(n, c.loc)] ∧
+    ∃ name, c.getName = some name ∧ (n = name ∨ n = name ++ '_' :: locationChecksum c.loc) :=
+  ⟨(addCds_ok h).1, (addCds_ok h).2.1, (addCds_ok h).2.2.1, (addCds_ok h).2.2.2.2⟩
 
-/-- after any sequence of `add_gene` / `add_cds_feature` calls on a fresh record the CDS names and
-    the CDS locations are pairwise distinct -/
+/-- a rejected call (the three input errors are the only constructors of `GErr`: the renamed
+    splice variant whose generated name is taken is an input error too, D60) leaves the record
+    exactly as it was -/
+theorem rejected_call_leaves_record (s : GState) (loc : Loc) (lt g p : Option Str) (e : GErr)
+    (h : addCds s (mkCds loc lt g p) = .error e) : applyOp s (.cds loc lt g p) = s :=
+  applyOp_rejected h
+
+/-- after any sequence of `add_gene` / `add_cds_feature` calls on a fresh record the CDS names,
+    the location keys and hence the locations are pairwise distinct -/
 theorem gene_names_unique_or_rejected (ops : List GOp) :
-    ((runOps {} ops).cdss.map (·.1)).Nodup ∧ ((runOps {} ops).cdss.map (·.2)).Nodup :=
-  runOps_inv ops ⟨List.nodup_nil, List.nodup_nil⟩
+    ((runOps {} ops).cdss.map (·.1)).Nodup ∧ ((runOps {} ops).cdss.map (fun x => locChars x.2)).Nodup ∧
+    ((runOps {} ops).cdss.map (·.2)).Nodup :=
+  have h := runOps_inv ops (s := {}) ⟨List.nodup_nil, List.nodup_nil⟩
+  ⟨h.1, h.2, locs_nodup_of_keys h.2⟩
 
 /-- `_sanitise_id_value` removes every gene-level illegal character, keeps the length and leaves
-    legal values alone; the names of all CDS features stay legal when the checksums are -/
+    legal values alone; the names of all CDS features are legal (the checksum suffix is made of
+    hex digits, which the regenerated table does not contain) -/
 theorem gene_names_safe (s : Str) (ops : List GOp) :
     (∀ bad ∈ illegalGeneChars, bad ∉ sanitiseIdValue s) ∧ (sanitiseIdValue s).length = s.length ∧
-    ((∀ op ∈ ops, chkSafe op) → ∀ x ∈ (runOps {} ops).cdss, ∀ bad ∈ illegalGeneChars, bad ∉ x.1) :=
-  ⟨fun bad hb hm => sanitise_safe s bad hm hb, sanitise_length s,
-   fun hc x hx bad hb hm => runOps_safe ops hc (by simp) x hx bad hm hb⟩
+    ((∀ c ∈ s, c ∉ illegalGeneChars) → sanitiseIdValue s = s) ∧
+    (∀ x ∈ (runOps {} ops).cdss, ∀ bad ∈ illegalGeneChars, bad ∉ x.1) :=
+  ⟨fun bad hb hm => sanitise_safe s bad hm hb, sanitise_length s, sanitise_id_of_safe,
+   fun x hx bad hb hm => runOps_safe ops (by simp) x hx bad hm hb⟩
+
+/-- the executable gene-level spec (`IdSpec.genesOk`, run by the driver on the implementation's
+    CDS list) holds of the model's state after any operation sequence -/
+theorem genes_meet_spec (ops : List GOp) : IdSpec.genesOk (runOps {} ops).cdss = true :=
+  genesOk_of_runOps ops
+
+/-- reading a record (`Record.from_biopython`: gene / CDS features in file order, identifiers from
+    the qualifiers with biopython's line-break blanks removed from locus tags, a position-based name
+    when a CDS has none): either the record is rejected — and then only because two CDS features
+    share a location or a name that cannot be told apart as splice variants, never for a missing
+    identifier — or all its CDS features have pairwise distinct, legal names and pairwise distinct
+    locations (`IdSpec.genesOk`, the spec the driver runs on the implementation's record) -/
+theorem record_read_unique_or_rejected (feats : List BioFeat) :
+    (∀ s, fromBiopython {} feats = .ok s →
+      (s.cdss.map (·.1)).Nodup ∧ (s.cdss.map (·.2)).Nodup ∧ (∀ x ∈ s.cdss, ∀ bad ∈ illegalGeneChars, bad ∉ x.1) ∧
+      IdSpec.genesOk s.cdss = true) ∧
+    (∀ e, fromBiopython {} feats = .error e → e = .dupLocation ∨ e = .dupName) := by
+  refine ⟨fun s h => ?_, fun e h => fromBiopython_err feats h⟩
+  have hi := fromBiopython_inv feats h ⟨List.nodup_nil, List.nodup_nil⟩ (by simp)
+  exact ⟨hi.1.1, locs_nodup_of_keys hi.1.2, fun x hx bad hb hm => hi.2 x hx bad hm hb, genesOk_of_inv hi.1 hi.2⟩
 
 /-- the regenerated illegal-character tables still contain every character they contained when
     the property was written (path separator, blank, shell/GenBank metacharacters; for gene ids
@@ -114,21 +168,43 @@ theorem illegal_sets_cover_baseline :
 /-! ### non-vacuity: the hypotheses are satisfiable on the inputs that used to break the property -/
 
 /-- D14 witness: used to give `ab`, `ab` -/
-example : preProcessIds false [("a:b".toList, "a:b".toList), ("ab".toList, "ab".toList)] =
-    .ok [⟨"ab_0".toList, "ab".toList, some "a:b".toList, 1⟩, ⟨"ab".toList, "ab".toList, none, 2⟩] := by decide
+example : preProcessIds false [("a:b".toList, "a:b".toList, none), ("ab".toList, "ab".toList, none)] =
+    .ok [⟨"ab_0".toList, "ab".toList, some "a:b".toList, 1, none⟩, ⟨"ab".toList, "ab".toList, none, 2, none⟩] := by decide
 /-- D15 witness: used to give the 18-character `c1234567_contig1..` -/
-example : preProcessIds false [("contig1234567.abcdefghijklmnop".toList, "x".toList)] =
-    .ok [⟨"c1234567_conti..".toList, "x".toList, some "contig1234567.abcdefghijklmnop".toList, 1⟩] := by decide
+example : preProcessIds false [("contig1234567.abcdefghijklmnop".toList, "x".toList, some "scaffold12.abcdefghijk".toList)] =
+    .ok [⟨"c1234567_conti..".toList, "x".toList, some "contig1234567.abcdefghijklmnop".toList, 1,
+          some "c00012_scaffol..".toList⟩] := by decide
 /-- duplicates, allow_long_headers: second and third occurrence renamed, first kept -/
-example : (preProcessIds true [("a".toList, []), ("a".toList, []), ("a_0".toList, [])]).map (·.map (·.id)) =
+example : (preProcessIds true [("a".toList, [], none), ("a".toList, [], none), ("a_0".toList, [], none)]).map (·.map (·.id)) =
     .ok ["a".toList, "a_0".toList, "a_0_0".toList] := by decide
 /-- the two rejections happen -/
-example : preProcessIds false [("a".toList, []), ([], [])] = .error .noName := by decide
+example : preProcessIds false [("a".toList, [], none), ([], [], none)] = .error .noName := by decide
 example : generateUniqueId "ab".toList ["ab_0".toList] 0 3 = .error .runtime := by decide
+/-- the counter crosses a digit boundary exactly where the length budget ends: `ab_0 … ab_9` taken,
+    `ab_10` needs 5 characters — rejected with `max_length = 4` (although the first candidate `ab_0`
+    fits), returned with 5 -/
+def tenTaken : List Str := (List.range 10).map fun k => mkName "ab".toList k
+example : generateUniqueId "ab".toList tenTaken 0 4 = .error .runtime := by decide
+example : generateUniqueId "ab".toList tenTaken 0 5 = .ok ("ab_10".toList, 10) := by decide
 /-- splice variant: same locus tag, overlapping location → renamed with the checksum; disjoint → rejected -/
-example : (runOps {} [.cds (.simple ⟨10, 40, .fwd⟩) (some "a:b".toList) none none "1f".toList,
-                      .cds (.simple ⟨20, 50, .fwd⟩) (some "a_b".toList) none none "2e".toList,
-                      .cds (.simple ⟨100, 130, .fwd⟩) (some "a b".toList) none none "3d".toList]).cdss.map (·.1) =
-    ["a_b".toList, "a_b_2e".toList] := by decide
+example : (runOps {} [.cds (.simple ⟨10, 40, .fwd⟩) (some "a:b".toList) none none,
+                      .cds (.simple ⟨20, 50, .fwd⟩) (some "a_b".toList) none none,
+                      .cds (.simple ⟨100, 130, .fwd⟩) (some "a b".toList) none none]).cdss.map (·.1) =
+    ["a_b".toList, "a_b_e50adf46".toList] := by decide +kernel
+/-- reading: a locus tag with a line-break blank collides with its unbroken form and is renamed as a
+    splice variant; a CDS without identifiers is named after its position -/
+example : (fromBiopython {} [⟨true, .simple ⟨10, 40, .fwd⟩, some "a b".toList, none, none, false⟩,
+                             ⟨true, .simple ⟨20, 50, .fwd⟩, some "ab".toList, none, none, false⟩,
+                             ⟨true, .simple ⟨100, 130, .rev⟩, none, none, none, true⟩]).toOption.map
+            (fun s => s.cdss.map (·.1)) =
+    some ["ab".toList, "ab_e50adf46".toList, "pseudo100_130".toList] := by decide +kernel
+/-- `f"{crc:x}"` drops leading zero nibbles: seven hex digits here -/
+example : locationChecksum (.simple ⟨18, 45, .fwd⟩) = "cdea4e3".toList := by decide +kernel
+/-- D60 witness: the generated name is already there → input error `dupName` (used to be a bare `assert`) -/
+example : (match addCds (runOps {} [.cds (.simple ⟨100, 130, .fwd⟩) (some "geneX_e50adf46".toList) none none,
+                                    .cds (.simple ⟨10, 40, .fwd⟩) (some "geneX".toList) none none])
+                        (mkCds (.simple ⟨20, 50, .fwd⟩) (some "geneX".toList) none none) with
+           | .error .dupName => true
+           | _ => false) = true := by decide +kernel
 
 end ASV.C16
